@@ -3,7 +3,7 @@
 //! every function only forwards to existing crate-private code.
 
 use crate::Interrupt;
-use crate::num::{hooks_bigrat, hooks_biguint};
+use crate::num::{hooks_bigrat, hooks_biguint, hooks_complex};
 
 /// `(is_small, little-endian limbs)`
 pub type RawUint = (bool, Vec<u64>);
@@ -157,4 +157,18 @@ pub fn bigrat_format<I: Interrupt>(
 		comma,
 		int,
 	)
+}
+
+/// Binary `Exact<Complex>` operation (`cadd`, `cmul`, `cdiv`) on numbers with rational parts
+/// `(re, im)`; returns the raw parts and the `exact` flag.
+///
+/// # Errors
+/// The `Display` text of the `FendError`.
+pub fn complex_op2<I: Interrupt>(
+	op: &str,
+	a: &(RawRat, RawRat),
+	b: &(RawRat, RawRat),
+	int: &I,
+) -> Result<((RawRat, RawRat), bool), String> {
+	hooks_complex::op2(op, a, b, int)
 }
